@@ -800,6 +800,8 @@ impl IdlSqliteWriteTransaction {
     where
         I: Iterator<Item = IdRawEntry>,
     {
+        #[cfg(feature = "verif-hooks")]
+        crate::verif_hooks::point("sql.w.stmt")?;
         let mut stmt = self
             .get_conn()?
             .prepare(&format!(
@@ -822,6 +824,8 @@ impl IdlSqliteWriteTransaction {
     }
 
     pub fn delete_identry(&self, id: u64) -> Result<(), OperationError> {
+        #[cfg(feature = "verif-hooks")]
+        crate::verif_hooks::point("sql.w.stmt")?;
         let mut stmt = self
             .get_conn()?
             .prepare(&format!(
@@ -853,6 +857,8 @@ impl IdlSqliteWriteTransaction {
         idx_key: &str,
         idl: &IDLBitRange,
     ) -> Result<(), OperationError> {
+        #[cfg(feature = "verif-hooks")]
+        crate::verif_hooks::point("sql.w.stmt")?;
         if idl.is_empty() {
             // delete it
             // Delete this idx_key from the table.
@@ -904,6 +910,8 @@ impl IdlSqliteWriteTransaction {
     }
 
     pub fn write_name2uuid_add(&self, name: &str, uuid: Uuid) -> Result<(), OperationError> {
+        #[cfg(feature = "verif-hooks")]
+        crate::verif_hooks::point("sql.w.stmt")?;
         let uuids = uuid.as_hyphenated().to_string();
 
         self.get_conn()?
@@ -922,6 +930,8 @@ impl IdlSqliteWriteTransaction {
     }
 
     pub fn write_name2uuid_rem(&self, name: &str) -> Result<(), OperationError> {
+        #[cfg(feature = "verif-hooks")]
+        crate::verif_hooks::point("sql.w.stmt")?;
         self.get_conn()?
             .prepare(&format!(
                 "DELETE FROM {}.idx_name2uuid WHERE name = :name",
@@ -943,6 +953,8 @@ impl IdlSqliteWriteTransaction {
     }
 
     pub fn write_externalid2uuid_add(&self, name: &str, uuid: Uuid) -> Result<(), OperationError> {
+        #[cfg(feature = "verif-hooks")]
+        crate::verif_hooks::point("sql.w.stmt")?;
         let uuids = uuid.as_hyphenated().to_string();
 
         self.get_conn()?
@@ -961,6 +973,8 @@ impl IdlSqliteWriteTransaction {
     }
 
     pub fn write_externalid2uuid_rem(&self, name: &str) -> Result<(), OperationError> {
+        #[cfg(feature = "verif-hooks")]
+        crate::verif_hooks::point("sql.w.stmt")?;
         self.get_conn()?
             .prepare(&format!(
                 "DELETE FROM {}.idx_externalid2uuid WHERE eid = :eid",
@@ -985,6 +999,8 @@ impl IdlSqliteWriteTransaction {
     }
 
     pub fn write_uuid2spn(&self, uuid: Uuid, k: Option<&Value>) -> Result<(), OperationError> {
+        #[cfg(feature = "verif-hooks")]
+        crate::verif_hooks::point("sql.w.stmt")?;
         let uuids = uuid.as_hyphenated().to_string();
         match k {
             Some(k) => {
@@ -1030,6 +1046,8 @@ impl IdlSqliteWriteTransaction {
     }
 
     pub fn write_uuid2rdn(&self, uuid: Uuid, k: Option<&String>) -> Result<(), OperationError> {
+        #[cfg(feature = "verif-hooks")]
+        crate::verif_hooks::point("sql.w.stmt")?;
         let uuids = uuid.as_hyphenated().to_string();
         match k {
             Some(k) => self
@@ -1101,6 +1119,8 @@ impl IdlSqliteWriteTransaction {
         I: Iterator<Item = Cid>,
         J: Iterator<Item = Cid>,
     {
+        #[cfg(feature = "verif-hooks")]
+        crate::verif_hooks::point("sql.w.stmt")?;
         let mut stmt = self
             .get_conn()?
             .prepare(&format!(
@@ -1150,6 +1170,8 @@ impl IdlSqliteWriteTransaction {
 
     #[instrument(level = "debug", skip(self))]
     pub fn create_idx(&self, attr: &Attribute, itype: IndexType) -> Result<(), OperationError> {
+        #[cfg(feature = "verif-hooks")]
+        crate::verif_hooks::point("sql.w.stmt")?;
         // Is there a better way than formatting this? I can't seem
         // to template into the str.
         //
@@ -1414,6 +1436,8 @@ impl IdlSqliteWriteTransaction {
     }
 
     pub fn set_db_ts_max(&self, ts: Duration) -> Result<(), OperationError> {
+        #[cfg(feature = "verif-hooks")]
+        crate::verif_hooks::point("sql.w.stmt")?;
         let data = serde_json::to_vec(&ts).map_err(|e| {
             admin_error!(
                 immediate = true,
